@@ -247,3 +247,41 @@ def attach_textcmp():
     g = icontract.ensure(verdict_matches_documented_rule, error=ContractBroken)(f)
     g = icontract.snapshot(snap_inputs, name='inputs')(g)
     checkfiles.FilesComparison.check_strings = g
+
+
+# ---------------------------------------------------------------------------
+# CSVW date-format translation (C16)
+# ---------------------------------------------------------------------------
+def attach_csvwdate():
+    if 'csvwdate' in _attached:
+        return
+    _attached.add('csvwdate')
+    import datetime
+    from tdda.serial import csvw
+    from vt.oracles import csvwdate as CD
+
+    def translation_reads_back_the_instants(fmt, extensions, result):
+        EVALS['csvw_date_format_to_md_date_format'] += 1
+        if '%' in fmt or extensions or not fmt:
+            return True
+        toks = CD.tokenize(fmt)
+        if any(k == 'lit' and t.isalpha() and t not in 'T' for k, t in toks):
+            return True                  # letters outside the documented family: not judged
+        EVALS['csvw_date_format:judged'] += 1
+        for dt in CD.INSTANTS:
+            text = CD.render(fmt, dt)
+            want = CD.carried(fmt, dt)
+            try:
+                if result == 'ISO8601':
+                    # 'ISO8601' is the pandas parsing mode, so pandas is the reader to ask
+                    import pandas as pd
+                    got = pd.to_datetime(text, format='ISO8601').to_pydatetime()
+                else:
+                    got = datetime.datetime.strptime(text, result)
+            except ValueError as e:
+                return broken('csvw_date_format', fmt=fmt, translated=result, text=text, error=str(e)[:100])
+            if got != want:
+                return broken('csvw_date_format', fmt=fmt, translated=result, text=text, parsed=str(got), written=str(want))
+        return True
+
+    ensure(csvw, 'csvw_date_format_to_md_date_format', translation_reads_back_the_instants)
